@@ -66,6 +66,8 @@ pub struct Session {
     pub limiter: RateLimiter<Shared>,
     pub store: Shared,
     pub cfg: Cfg,
+    /// the request lines executed on this session so far (the most recent 800), for replays
+    pub history: Vec<String>,
 }
 
 #[derive(Clone, Debug)]
@@ -103,7 +105,7 @@ impl Step {
 impl Session {
     pub fn new(cfg: &Cfg) -> Session {
         let store = Shared::new(cfg);
-        Session { limiter: RateLimiter::new(store.clone()), store, cfg: cfg.clone() }
+        Session { limiter: RateLimiter::new(store.clone()), store, cfg: cfg.clone(), history: vec![] }
     }
 
     pub fn call(&mut self, rq: &Rq) -> Step {
@@ -127,7 +129,29 @@ impl Session {
             Err(_) => Resp::Panic,
         };
         let trace = self.store.take_trace_vec();
-        Step { rq: rq.clone(), resp, trace, bit }
+        let st = Step { rq: rq.clone(), resp, trace, bit };
+        if self.history.len() >= 800 {
+            self.history.drain(..400);
+        }
+        self.history.push(format!("{}    # -> {}", st.op_line(), st.resp.show()));
+        st
+    }
+}
+
+/// a panic inside `rate_limit` (or inside a store operation it performs) is a violation of C08 whatever the
+/// mode; the replay is the session's configuration and its requests so far, the panicking one last
+pub fn report_panic(sess: &Session, st: &Step, out: &mut Out) {
+    if st.resp == Resp::Panic {
+        let mut lines = vec![crate::oracles::cfg_line(&sess.cfg)];
+        lines.extend(sess.history.iter().cloned());
+        out.violation(
+            "C08",
+            format!(
+                "rate_limit panicked for burst={} count={} period={} quantity={} now={} ({}, request {} of its session)",
+                st.rq.lim.b, st.rq.lim.c, st.rq.lim.p, st.rq.q, st.rq.now, crate::oracles::cfg_line(&sess.cfg), sess.history.len()
+            ),
+            lines,
+        );
     }
 }
 
@@ -355,13 +379,28 @@ pub fn run_history(rng: &mut Rng, sess: &mut Session, hp: &HistParams, out: &mut
         };
         keys.push((gen_key(rng, i), lim));
     }
+    // "hot expiring key" histories (one in ten): the first key gets a tiny burst and a short emission interval and
+    // most of its requests arrive exactly when (or 1 ns after) its stored state has expired, so that dozens of writes
+    // land on expired-but-not-yet-swept entries between two cleanups - the state in which the stores' bookkeeping of
+    // expired entries (adaptive store: `expired_count`, ratio trigger, interval adaptation) is exercised
+    let hot = rng.chance(1, 7);
+    let n_steps = if hot { hp.steps.max(if hp.monotone { 220 } else { 500 }) } else { hp.steps };
+    if hot {
+        let p = rng.range(1, 3);
+        let e_ns = rng.pick(&[1i64, 7, 1_000, 50_000, 1_000_000]);
+        let l = Lim { b: rng.pick(&[1i64, 1, 2]), c: p * (1_000_000_000 / e_ns), p };
+        if l.in_d() {
+            keys[0].1 = l;
+            out.bump("hist_hot_expiring_key_sessions");
+        }
+    }
     let keys = keys;
     let mut now = pick_base(rng);
     let mut latest = now;
     let mut steps: Vec<Step> = Vec::with_capacity(hp.steps);
     let mut noise_ctr = 0usize;
     let mut expiry: std::collections::HashMap<String, i128> = std::collections::HashMap::new();
-    for _ in 0..hp.steps {
+    for _ in 0..n_steps {
         let roll = rng.below(100);
         let next_in = sess.store.field("next").map(|n| n - latest as i128);
         let rq = if roll < hp.noise_pct {
@@ -397,16 +436,23 @@ pub fn run_history(rng: &mut Rng, sess: &mut Session, hp: &HistParams, out: &mut
             out.bump("req_invalid");
             Rq { key, lim, q, now }
         } else {
-            let (key, klim) = keys[rng.below(keys.len() as u64) as usize].clone();
+            let (key, klim) = if hot && rng.chance(9, 10) { keys[0].clone() } else { keys[rng.below(keys.len() as u64) as usize].clone() };
             let lim = if rng.below(100) < hp.mixed_pct {
                 if rng.chance(1, 2) && klim.in_d() { sibling(rng, &klim) } else { gen_lim_d(rng) }
             } else {
                 klim
             };
             let exp_in = expiry.get(&key).map(|e| *e - latest as i128);
-            let gap = gen_gap(rng, &klim, next_in, exp_in);
+            let mut gap = gen_gap(rng, &klim, next_in, exp_in);
+            if hot && key == keys[0].0 && rng.chance(4, 5) {
+                if let Some(d) = exp_in {
+                    if d >= 0 {
+                        gap = (d + rng.pick(&[0i64, 0, 1]) as i128).clamp(0, 1i128 << 61) as i64;
+                    }
+                }
+            }
             now = advance(rng, hp, &mut latest, now, gap);
-            let q = gen_qty(rng, &lim, hp.zero_pct);
+            let q = if hot && key == keys[0].0 && rng.chance(3, 4) { 1 } else { gen_qty(rng, &lim, hp.zero_pct) };
             if q == 0 {
                 out.bump("req_zero");
             } else if q > lim.b {
@@ -417,6 +463,12 @@ pub fn run_history(rng: &mut Rng, sess: &mut Session, hp: &HistParams, out: &mut
             Rq { key, lim, q, now }
         };
         let st = sess.call(&rq);
+        if st.resp == Resp::Panic {
+            // the store may be left half-updated: report and end this history
+            report_panic(sess, &st, out);
+            steps.push(st);
+            break;
+        }
         for op in &st.trace {
             // remember when the state written for this key expires
             let t: Vec<&str> = op.split(' ').collect();
@@ -450,7 +502,7 @@ fn advance(rng: &mut Rng, hp: &HistParams, latest: &mut i64, now: i64, gap: i64)
         // arbitrary order: sometimes forward, sometimes a step back from the latest seen
         let n = match rng.below(10) {
             0..=3 => latest.saturating_add(gap).min(T_MAX),
-            4..=5 => (*latest - rng.pick(&[1i64, 1000, 1_000_000, 50_000_000])).max(0),
+            4..=5 => (*latest - rng.pick(&[1i64, 1000, 1_000_000, 50_000_000, 3_600_000_000_001, 7_200_000_000_000, 86_400_000_000_000])).max(0),
             6..=7 => (*latest - gap).max(0),
             8 => (now - rng.pick(&[0i64, 1, 1_000_000_000, 3_000_000_000])).max(0),
             _ => now,
